@@ -88,7 +88,9 @@ int process_tarball(sqfs_dir_iterator_t *it, sqfs_writer_t *sqfs)
 	return ms_stage(MS_INPUT, "process_tarball.fail");
 }
 
+#define main tool_main
 #include "bin/tar2sqfs/src/tar2sqfs.c"
+#undef main
 
 void harness(void)
 {
@@ -102,7 +104,7 @@ void harness(void)
 	g_stdin_failed = false;
 	g_tar_failed = false;
 
-	status = main(1, argv);
+	status = tool_main(1, argv);
 
 	main_check(status, MS_INIT | MS_INPUT | MS_POST | MS_FINISH,
 		   g_stdin_failed || g_tar_failed);
